@@ -227,11 +227,14 @@ func ReadOverlay(st *stor.Stor, r *stor.Reader, nrows int) *Overlay {
 // The immutable part of ov was taken at the start of the transaction
 // so it will be out of date.
 // The checker ensures that the updates are independent.
-func (ov *Overlay) UpdateWith(latest *Overlay) {
-	ov.bt = latest.bt                           // @allow-mutate
-	ov.layers = slc.With(latest.layers, ov.mut) // @allow-mutate
-	ov.mut = nil                                // @allow-mutate
-	assert.That(len(ov.layers) >= 2)
+// It returns a new Overlay (rather than modifying ov) because iterators
+// (OverIter.update) detect changes by comparing Overlay pointers.
+// An iterator that was used with the transaction and is continued afterwards
+// (e.g. a cursor) must re-seek, since the layers may have changed.
+func (ov *Overlay) UpdateWith(latest *Overlay) *Overlay {
+	layers := slc.With(latest.layers, ov.mut)
+	assert.That(len(layers) >= 2)
+	return &Overlay{bt: latest.bt, layers: layers}
 }
 
 //-------------------------------------------------------------------
